@@ -1491,6 +1491,10 @@ class WireWorld:
         d = f'/dev/shm/verif-wire-{os.getpid():07d}'
         shutil.rmtree(d, ignore_errors=True)
         self.dir = d
+        import tempfile
+        old_tempdir = tempfile.tempdir
+        os.makedirs(d, mode=0o700, exist_ok=True)
+        tempfile.tempdir = d  # dawgie.security makes its gpg homes with tempfile.mkdtemp() and never removes them
         try:
             try:
                 homes = {}
@@ -1586,6 +1590,7 @@ class WireWorld:
                         subprocess.run(['gpgconf', '--homedir', p, '--kill', 'gpg-agent'], capture_output=True, timeout=20)
                     except Exception:  # noqa
                         pass
+            tempfile.tempdir = old_tempdir
             shutil.rmtree(d, ignore_errors=True)
 
     # ======================================================================
